@@ -152,7 +152,7 @@ MATSCAN = "glaredb_core::logical::logical_materialization::LogicalMaterializatio
 def _reads_scan_count(facts):
     """functions (outside the counter's own increment) that read Materialization.scan_count"""
     out = []
-    for rec in facts.all_fns(["glaredb_core"]):
+    for rec in facts.all_fns(["glaredb_core"], contains="scan_count"):
         if "scan_count" not in str(rec["bbs"]) or "::tests::" in rec["id"]:
             continue
         fn = Fn(rec)
@@ -256,7 +256,7 @@ def rule_matshare(facts):
     load_bearing = bool(readers) or guard_exists
     # ---- (B)
     nsites = 0
-    for rec in facts.all_fns(["glaredb_core"]):
+    for rec in facts.all_fns(["glaredb_core"], contains=MATSCAN):
         if MATSCAN not in str(rec["bbs"]) or "::tests::" in rec["id"]:
             continue
         if rec["id"].endswith("as std::clone::Clone>::clone"):
